@@ -16,6 +16,9 @@ CONSTANTS
   MaxFaults = 0
   DeferUnlock = TRUE
   StickyError = TRUE
+  LiveKind = 0
+  MaxTicks = 0
+  ResolveOnDerive = FALSE
   MaxH = 6
   MaxLogs = 0
   MaxGroups = 0
